@@ -12,7 +12,7 @@ func init() {
 	register(&propInfo{
 		ID:          "C17",
 		Run:         runC17,
-		MinObl:      14,
+		MinObl:      18,
 		Explanation: "Decided: R1 in the PAR continuation of NewAuthorizeRequest the isPAR==true exit requires DeletePARSession(same uri) to have returned nil and client_id(form) == client id of the stored pushed request; R2 RedirectURI/ResponseTypes/State/ResponseMode are written from the stored request's getters, Merge(stored) runs, and after the PAR branch returned true no field of the request is written before NewAuthorizeRequest returns; R3 the stored par_context expiry is read and compared with now on every isPAR==true path (or the stored session is nil); R4 push endpoint: success requires AuthenticateClient nil, an empty request_uri parameter, the form's client_id to be the authenticated client's id before the shared authorize-request pipeline loads the client from it, the pipeline's nil error, and redirect_uri for openid requests; handler: transport check, scope ForAll and audience strategy, request URI = configured prefix + encoding of ≥32 random bytes from hmac.RandomBytes, the URI stored is the URI returned, expires_in derives from the same lifespan term as the stored expiry; R5 without a pushed request the authorization endpoint proceeds to the client lookup only if PAR is not enforced. R1 also requires the caller's client_id to have been read from the form before Merge copied the pushed parameters into that same form (evaluation clock of the read vs. the Merge event). NOT decided: histories (one-time use across concurrent authorizations), other stores.",
 	})
 }
